@@ -19,7 +19,21 @@ for r in rows:
         if a.returncode!=0:
             print(sid,'PATCH DOES NOT APPLY',a.stderr.strip()[:200]); continue
         caught={}
-        for p in claimed:
+        # checks worth running: the seed's own property, every property tagged in the contract files of the touched
+        # packages, and the (fast) dataflow checks; the others cannot see the change (their functions are elsewhere)
+        m0=json.load(open(V+'/seeded/'+sid+'/meta.json'))
+        rel=set(['C04','C05','C08','C14','C15', m0.get('property','')])
+        import re
+        for f in m0.get('files_touched',[]):
+            d=os.path.dirname(f)
+            cf=os.path.join('/repo',d,'zz_verif_contracts.go')
+            if os.path.exists(cf):
+                for mm in re.finditer(r'props ([A-Z0-9 ]+)', open(cf).read()):
+                    rel.update(mm.group(1).split())
+                for mm in re.finditer(r'\[((?:C\d\d ?)+)\]', open(cf).read()):
+                    rel.update(mm.group(1).split())
+        if os.environ.get('SEEDRUN_ALL'): rel=set(claimed)
+        for p in [q for q in claimed if q in rel]:
             res=subprocess.run([V+'/bin/vcgo','check','-verif',V,'-repo',wt,'-out',out,'-prop',p,'-tier','quick','-noreplay'],capture_output=True,text=True,env=env)
             viol=[l for l in res.stdout.split('\n') if l.startswith('VIOLATION')]
             err=[l for l in res.stdout.split('\n') if l.startswith('ERROR')]
@@ -31,7 +45,7 @@ for r in rows:
                 caught[p]={'violations':len(viol),'obligations':names[:6],'errors':err[:2]}
         m=json.load(open(V+'/seeded/'+sid+'/meta.json'))
         m['caught_by']=caught if caught else {}
-        m['caught_by_note']='quick checks of %s run on the patched tree; {} = no claimed check reports it'%(','.join(claimed))
+        m['caught_by_note']='quick checks of %s run on the patched tree (the claimed checks that cover the touched packages); {} = none of them reports it'%(','.join(q for q in claimed if q in rel))
         json.dump(m,open(V+'/seeded/'+sid+'/meta.json','w'),indent=1)
         print(sid,'->',{k:v['violations'] for k,v in caught.items()} or 'MISSED')
     finally:
